@@ -177,6 +177,17 @@ def agree_ref(ctx, fi, ref_src, title, what=('return', 'heap', 'substores'), rul
                             construct=ea.text()[:80] + ' [args]')
                 ctx.formula(rule, f'{title}: condition of the {ea.data["name"]} call == reference', fi, ea.cond(), eb.cond(),
                             node=ea.node, construct=ea.text()[:80] + ' [guard]')
+    if 'deletes' in what:
+        da = [e for e in I.events if e.kind == 'delete' and e.func.short == fi.short]
+        db = [e for e in IR.events if e.kind == 'delete']
+        if len(da) != len(db):
+            ctx.ob(rule, f'{title}: same deletions as the reference', fi, False,
+                   {'code': [e.text() for e in da], 'reference': [e.text() for e in db]}, node=fi.node, construct='del statements')
+        else:
+            for ea, eb in zip(da, db):
+                ctx.formula(rule, f'{title}: deleted element == reference', fi, T.mk_tuple([ea.data['base'], lift(ea.data['key']) if isinstance(ea.data['key'], str) else ea.data['key']]),
+                            T.mk_tuple([eb.data['base'], lift(eb.data['key']) if isinstance(eb.data['key'], str) else eb.data['key']]),
+                            node=ea.node, construct=ea.text()[:80])
     if 'raises' in what:
         ra = [e for e in I.events if e.kind == 'raise' and e.func.short == fi.short]
         rb = [e for e in IR.events if e.kind == 'raise']
